@@ -661,19 +661,22 @@ func isBoolExpr(e *XExpr) bool {
 
 // galDBCase prints a db_case: the table, the points with their oracle columns (WHERE flags and IF
 // conditions evaluated with the real goexpr) and the observed query results.
-func galDBCase(t *jTable, points []jPoint, queries []jQuery, results []qResult) (string, error) {
+type galRun struct{ q, rows string }
+
+// galDBParts prints the table, the points (with oracle columns) and the query runs separately.
+func galDBParts(t *jTable, points []jPoint, queries []jQuery, results []qResult) (string, []string, []galRun, error) {
 	var err error
 	// oracle columns evaluated with the real goexpr
 	var whereEx goexpr.Expr
 	if t.Where != nil {
 		if whereEx, err = t.Where.compile(); err != nil {
-			return "", err
+			return "", nil, nil, err
 		}
 	}
 	condEx := make([]goexpr.Expr, len(t.Conds))
 	for i, cd := range t.Conds {
 		if condEx[i], err = cd.compile(); err != nil {
-			return "", err
+			return "", nil, nil, err
 		}
 	}
 	// the SQL the harness printed means the expression the model was given: parse it with the
@@ -682,18 +685,18 @@ func galDBCase(t *jTable, points []jPoint, queries []jQuery, results []qResult) 
 		if pfs, ferr := pq.Fields.Get(nil); ferr == nil && len(pfs) == len(t.Fields) {
 			for i, f := range t.Fields {
 				if want := f.E.RealC(condEx).String(); pfs[i].Expr.String() != want {
-					return "", fmt.Errorf("harness SQL printer mismatch: field %s parses to %v, AST is %v", f.Name, pfs[i].Expr, want)
+					return "", nil, nil, fmt.Errorf("harness SQL printer mismatch: field %s parses to %v, AST is %v", f.Name, pfs[i].Expr, want)
 				}
 			}
 		} else {
-			return "", fmt.Errorf("harness SQL printer: cannot resolve fields of %q: %v", t.SQL(), ferr)
+			return "", nil, nil, fmt.Errorf("harness SQL printer: cannot resolve fields of %q: %v", t.SQL(), ferr)
 		}
 	}
 	qWhere := make([]goexpr.Expr, len(queries))
 	for i := range queries {
 		if queries[i].Where != nil {
 			if qWhere[i], err = queries[i].Where.compile(); err != nil {
-				return "", err
+				return "", nil, nil, err
 			}
 		}
 	}
@@ -722,10 +725,22 @@ func galDBCase(t *jTable, points []jPoint, queries []jQuery, results []qResult) 
 		pts[i] = fmt.Sprintf("{| tp_ts := %s; tp_dims := %s; tp_pt := {| p_vals := %s; p_md := %s |}; tp_flags := %s |}",
 			gtime(p.TS.T()), galDims(p), glist(vals), glist(conds), glist(flags))
 	}
+	runs := make([]galRun, len(results))
+	for i, r := range results {
+		runs[i] = galRun{r.q.Gal(t, i, r.now, r.flushed), galORows(r.rows)}
+	}
+	return t.Gal(), pts, runs, nil
+}
+
+// galDBCase prints a db_case.
+func galDBCase(t *jTable, points []jPoint, queries []jQuery, results []qResult) (string, error) {
+	tg, pts, rg, err := galDBParts(t, points, queries, results)
+	if err != nil {
+		return "", err
+	}
 	runs := make([]string, len(results))
 	for i, r := range results {
-		runs[i] = fmt.Sprintf("{| qr_q := %s;\n      qr_err := %s;\n      qr_rows := %s |}", r.q.Gal(t, i, r.now, r.flushed), gbool(r.err != nil), galORows(r.rows))
+		runs[i] = fmt.Sprintf("{| qr_q := %s;\n      qr_err := %s;\n      qr_rows := %s |}", rg[i].q, gbool(r.err != nil), rg[i].rows)
 	}
-	g := fmt.Sprintf("{| dc_table := %s;\n   dc_points := [%s];\n   dc_runs := [%s] |}", t.Gal(), strings.Join(pts, ";\n     "), strings.Join(runs, ";\n     "))
-	return g, nil
+	return fmt.Sprintf("{| dc_table := %s;\n   dc_points := [%s];\n   dc_runs := [%s] |}", tg, strings.Join(pts, ";\n     "), strings.Join(runs, ";\n     ")), nil
 }
